@@ -196,7 +196,13 @@ def check_contract(F, s, which):
                 ck = M.callee_key(t) or ""
                 if cn(ck) == "multiboot2_common::DynSizedStructure::ref_from_ptr":
                     callers.add(k)
-        good = all(F.insts[c].get("unsafe") and F.insts[c].get("name") == "load" for c in callers)
+        def encl(c):
+            # a closure written inside `load` (`ok_or(..).and_then(|p| ref_from_ptr(p))`) is part of load
+            k_ = c
+            while "::{closure" in k_:
+                k_ = k_[:k_.rindex("::{closure")]
+            return F.insts.get(k_) or F.helper_insts.get(k_) or F.insts[c]
+        good = all(encl(c).get("unsafe") and encl(c).get("name") == "load" for c in callers)
         return ok and good and bool(callers), "ref_from_ptr is an `unsafe fn`; its only callers are the `unsafe fn load` entry points %s, whose documented contract provides a valid region of the declared size" % sorted(c.split("::")[-3] for c in callers)
     if which == "load":
         return bool(enc.get("unsafe")), "load is an `unsafe fn` (the caller guarantees a valid region of the declared size)"
